@@ -2,6 +2,7 @@ package engine
 
 import (
 	"encoding/json"
+	"runtime"
 	"time"
 )
 
@@ -57,7 +58,28 @@ func RunInProcess(sc Scenario, p Plan, st *Stats, status *StatusPage, trace bool
 var (
 	SeamReset func(seed uint64)
 	SeamStats func() (clock, random uint64)
+	// SeamAdvance lets d of SIMULATED time pass (a stalled I/O call) and returns
+	// how many timers of the code under test fired because of it; SeamTimers
+	// reports how many timers the code under test has created in this process.
+	SeamAdvance func(d time.Duration) int
+	SeamTimers  func() uint64
 )
+
+// Goid returns the id of the calling goroutine (parsed from the stack header;
+// about a microsecond — used only where a stall is armed or the code under
+// test has created timers, i.e. never on the unchanged library).
+func Goid() uint64 {
+	var buf [64]byte
+	b := buf[:runtime.Stack(buf[:], false)]
+	id := uint64(0)
+	for _, c := range b[len("goroutine "):] {
+		if c < '0' || c > '9' {
+			break
+		}
+		id = id*10 + uint64(c-'0')
+	}
+	return id
+}
 
 // RunInProcessUntil is RunInProcess with a deadline (shrink candidates only).
 func RunInProcessUntil(sc Scenario, p Plan, st *Stats, status *StatusPage, trace bool, deadline time.Time) (out Outcome, ctx *RunCtx) {
